@@ -33,7 +33,7 @@ pub fn run(args: &Args, rep: &mut Report) {
                 ranges accepting and then succeeding / failing / disconnecting, followed by a phase where every peer has everything and succeeds; the event log is checked per \
                 block; distinct = distinct event logs"
         .into();
-    let ncases: u64 = args.extra_u64("cases").unwrap_or(args.pick(150, 5000));
+    let ncases: u64 = args.extra_u64("cases").unwrap_or(args.pick(1500, 40000));
     for case in 0..ncases {
         if !rep.within_budget() { rep.count("stopped_by_budget"); break; }
         let mut rng = rng_for(args.seed, args.shard, 19, case);
